@@ -19,7 +19,7 @@ ASSUMPTIONS = [
     "std HashMap entry API: or_insert_with never overwrites an occupied entry",
 ]
 TRUSTED = ["rustc nightly MIR construction (mir-opt-level=0)", "shred-facts driver", "shredlint analyses (cfg, terms, shapes)"]
-TECHNIQUE = 'static: FANOUT coverage of setup/dispose over the carrier ownership tree, lifecycle sibling rule on impls, call-cone who-may-mutate analysis of library setup code and structured evaluation of DefaultProvider::setup down to the table (only a vacant slot of the handler's own type is filled), tuple/derive setup composition'
+TECHNIQUE = 'static: FANOUT coverage of setup/dispose over the carrier ownership tree, lifecycle sibling rule on impls, call-cone who-may-mutate analysis of library setup code and structured evaluation of DefaultProvider::setup down to the table (only a vacant slot of the type the handler is for is filled), tuple/derive setup composition'
 RULE_TEXT = ("one obligation per (carrier method, carrier field, family) from the FANOUT table, per sibling lifecycle "
              "method of every carrier impl, and per mutating call site in the setup cone; distinct = distinct rule instances")
 
